@@ -18,6 +18,7 @@ pub fn prop() -> Prop {
         subs: vec![
             Sub::enumerate("store_load", store_load),
             Sub::tape("iterator_scripts", 64, 300_000, 15_000_000, iterator_scripts),
+            Sub::tape("size_hint_large", 24, 300_000, 15_000_000, size_hint_large),
             Sub::tape("long_buffers", 64, 200_000, 10_000_000, long_buffers),
         ],
     }
@@ -440,6 +441,74 @@ fn long_buffers(d: &mut Dec, cx: &mut Cx) -> Res {
         ($t:ty, $bpp:expr) => {
             if combo / 2 == k && out.is_none() {
                 out = Some(if be { long_case::<$t, BigEndianLsb0>(d, cx, $bpp, true) } else { long_case::<$t, LittleEndianMsb0>(d, cx, $bpp, false) });
+            }
+            k += 1;
+        };
+    }
+    all_combos!(go);
+    let _ = k;
+    out.unwrap()
+}
+
+
+// ---- size_hint / nth on buffers up to 16 MiB -----------------------------------------------------
+
+/// One zeroed 16 MiB buffer shared by all cases (slices of it are the "buffers": only lengths matter here).
+fn big_zero() -> &'static [u8] {
+    static BIG: std::sync::OnceLock<Vec<u8>> = std::sync::OnceLock::new();
+    BIG.get_or_init(|| vec![0u8; 1 << 24])
+}
+
+fn size_hint_case<R, O>(d: &mut Dec, cx: &mut Cx, bpp: u32, be: bool) -> Res
+where
+    R: RawData + Copy + PartialEq + core::fmt::Debug,
+    R::Storage: Into<u32>,
+    O: DataOrder,
+{
+    // lengths around the powers of two up to 2^24 (every residue modulo 3 and 4), or anywhere
+    let len = match d.u(0, 2) {
+        0 => ((1usize << d.u(8, 24)) + d.u(0, 12) as usize).saturating_sub(6).min(1 << 24),
+        1 => ((3usize << d.u(8, 22)) + d.u(0, 12) as usize).saturating_sub(6).min(1 << 24),
+        _ => d.u(0, 1 << 24) as usize,
+    };
+    let data = &big_zero()[..len];
+    let total = (len as u64 * 8 / bpp as u64) as usize;
+    cx.describe(|| format!("{} bit {} order, buffer of {} bytes = {} pixels", bpp, if be { "BigEndianLsb0" } else { "LittleEndianMsb0" }, len, total));
+    cx.class(if len >= 1 << 21 { "at_least_2_MiB" } else if len >= 1 << 16 { "at_least_64_KiB" } else { "below_64_KiB" });
+    let hint = |it: &dyn Iterator<Item = R>, remaining: usize, when: &str| -> Res {
+        let (lo, hi) = it.size_hint();
+        ensure!(lo <= remaining && hi.map_or(true, |h| h >= remaining), "large:size_hint", "size_hint() = {:?} {} but {} items remain ({} bytes)", (lo, hi), when, remaining, len);
+        Ok(())
+    };
+    let mut it = RawDataSlice::<R, O>::new(data).into_iter();
+    hint(&it, total, "on the fresh iterator")?;
+    // skip to a position near the end or anywhere
+    let k = match d.u(0, 2) {
+        0 => total.saturating_sub(d.u(1, 4) as usize),
+        1 => d.u(0, total as u32) as usize,
+        _ => total + d.u(0, 3) as usize,
+    };
+    let x = it.nth(k);
+    ensure!(x.is_some() == (k < total), "large:nth", "nth({}) on {} pixels returned {:?}", k, total, x);
+    let remaining = total.saturating_sub(k + 1);
+    hint(&it, remaining, &format!("after nth({})", k))?;
+    if remaining <= 8 {
+        let c = it.count();
+        ensure!(c == remaining, "large:count", "count() after nth({}) = {}, {} items remain", k, c, remaining);
+    }
+    cx.nontrivial(len >= 1 << 16);
+    Ok(())
+}
+
+fn size_hint_large(d: &mut Dec, cx: &mut Cx) -> Res {
+    let combo = d.u(0, 13);
+    let be = combo % 2 == 1;
+    let mut k = 0;
+    let mut out: Option<Res> = None;
+    macro_rules! go {
+        ($t:ty, $bpp:expr) => {
+            if combo / 2 == k && out.is_none() {
+                out = Some(if be { size_hint_case::<$t, BigEndianLsb0>(d, cx, $bpp, true) } else { size_hint_case::<$t, LittleEndianMsb0>(d, cx, $bpp, false) });
             }
             k += 1;
         };
